@@ -128,7 +128,7 @@ func c09Judge(c *core.Ctx, p *Prog, argv []string, fam string) (string, bool) {
 	}
 	if v.Accept {
 		b := obs.Bind[0]
-		adm, uncl := Admits(p, nfa, argv, b.Args, b.Opts)
+		adm, uncl := AdmitsEither(p, argv, b.Args, b.Opts)
 		if !adm && !uncl {
 			c.Violation("tokens after -- are not bound verbatim / the binding is not a derivation", map[string]interface{}{"library_binding": bindStr(p, b)}, nil)
 			return key, false
